@@ -527,6 +527,12 @@ where
 
     if let Some(id) = num::NonZeroU16::new(packet_id) {
         let ack = if qos2 {
+            // PUBREC with an error code completes the exchange, no PUBREL follows
+            if ack.reason_code as u8 >= 0x80 {
+                let mut info = inner.info.borrow_mut();
+                info.inflight.remove(&id);
+                info.publishes.remove(&id);
+            }
             codec::Packet::PublishReceived(codec::PublishAck {
                 packet_id: id,
                 reason_code: ack.reason_code,
